@@ -241,8 +241,8 @@ pub fn def() -> PropertyDef {
             "unbounded runs of Interrupted are not generated: write_all would never return, which is the sink's doing",
         ],
         subs: vec![
-            Box::new(PSub { name: "every_fault_point", quick: 300, thorough: 6000, strat, eval }),
-            Box::new(PSub { name: "sampled_fault_points", quick: 300, thorough: 20_000, strat: strat_sampled, eval }),
+            Box::new(PSub { name: "every_fault_point", quick: 600, thorough: 12000, strat, eval }),
+            Box::new(PSub { name: "sampled_fault_points", quick: 1500, thorough: 60000, strat: strat_sampled, eval }),
         ],
     }
 }
